@@ -425,6 +425,10 @@ func layerGoString(i interface{}, b *bytes.Buffer) {
 	}
 	switch v.Kind() {
 	case reflect.Ptr, reflect.Interface:
+		if v.IsNil() {
+			b.WriteString("nil")
+			return
+		}
 		if v.Kind() == reflect.Ptr {
 			b.WriteByte('&')
 		}
@@ -443,7 +447,9 @@ func layerGoString(i interface{}, b *bytes.Buffer) {
 				fmt.Fprintf(b, "%s:", t.Field(i).Name)
 				layerGoString(v.Field(i), b)
 			} else if v.Field(i).Kind() == reflect.Ptr {
-				b.WriteByte('&')
+				if !v.Field(i).IsNil() {
+					b.WriteByte('&')
+				}
 				layerGoString(v.Field(i), b)
 			} else {
 				fmt.Fprintf(b, "%s:%#v", t.Field(i).Name, v.Field(i))
